@@ -135,7 +135,7 @@ func c10Profiles(tier string) []Profile {
 	}
 	for _, sc := range c05Scenarios() {
 		if sc.Name == "S1-get" {
-			conc = append(conc, sc.Profile(1))
+			conc = append(conc, sc.Profile(2))
 		}
 	}
 	return append(conc, aborted, readersProfile(dr).Profile(readersRule(dr)), p.Profile(fmt.Sprintf("every history of length <= %d over two stores sharing the process-wide free lists (A: file-backed, collections x,y; B: memory-only): Set/Delete/Evict, Flush, SetCollection on an existing name, remove+recreate, Snapshot/read/revert/close of a snapshot, an iterator left open across letters (Next/Close), mutations nested inside a visitor callback, closing and renewing B; oracles: no node on the free list is reachable from any open handle, and after a churn phase that reuses everything freed, every open handle still equals the model and every open iterator delivers exactly the version it pinned", d)))
